@@ -147,6 +147,7 @@ class GenSource(object):
         self.want_name = None
         self.last_mutated = None
         self.life_same = {}
+        self.last_build = {}      # handle -> core of the constructor / set() call the object was last built with
         # hammer runs (1 run in 16): one cheap callable asked a few hundred times, alternately with exactly the
         # same arguments and with fresh ones - counters, budgets, cache-size thresholds and evictions only show then
         self.hammer = None
@@ -319,7 +320,7 @@ class GenSource(object):
             self._snaps(sim, rep)
             q.append(('scan', rep))
 
-    def _perturb(self, core):
+    def _perturb(self, core, tiny=False):
         """Neighbouring arguments: one numeric literal (or the value of one inline Angle/Epoch) moved a little.
         A cache keyed on too little answers the neighbour with the first call's value."""
         rng = self.rng
@@ -330,7 +331,7 @@ class GenSource(object):
                 if 'i' in e and not isinstance(e['i'], bool):
                     # integer neighbours (next month, next year, one more decimal) only where every integer is
                     # either accepted or rejected with ValueError: indices into fixed tables are left alone
-                    if ENTRIES[core['name']].group in ('Epoch', 'Angle', 'Sun', 'Coordinates', 'base'):
+                    if not tiny and ENTRIES[core['name']].group in ('Epoch', 'Angle', 'Sun', 'Coordinates', 'base'):
                         leaves.append(('i', e))
                 elif 'f' in e:
                     leaves.append(('f', e))
@@ -355,10 +356,14 @@ class GenSource(object):
                 x = float.fromhex(e['f'])
                 # small moves only: the neighbour must stay inside the conservative domain the generator chose
                 # (some routines iterate without a bound on inputs far from their documented examples)
-                e['f'] = float(x * (1.0 + rng.choice([-1, 1]) * rng.choice([1e-12, 1e-9, 1e-6]))).hex()
+                e['f'] = float(x * (1.0 + rng.choice([-1, 1]) * rng.choice([1e-13, 1e-12] if tiny else
+                                                                           [1e-12, 1e-9, 1e-6]))).hex()
             else:
                 x = float.fromhex(e['v'])
-                d = rng.choice([1e-10, 1e-7, 1e-5]) if e['new'] == 'Angle' else rng.choice([1e-6, 1e-3, 0.3])
+                if tiny:
+                    d = rng.choice([1e-12, 3e-11]) if e['new'] == 'Angle' else rng.choice([1e-8, 1e-7])
+                else:
+                    d = rng.choice([1e-10, 1e-7, 1e-5]) if e['new'] == 'Angle' else rng.choice([1e-6, 1e-3, 0.3])
                 e['v'] = float(x + rng.choice([-1, 1]) * d).hex()
         return core
 
@@ -434,6 +439,14 @@ class GenSource(object):
         names = [n for n in NAMES if n.startswith(kind + '.') and ENTRIES[n].kind in ('meth', 'op') and
                  (ENTRIES[n].effect == 'pure') == (what == 'use') and ENTRIES[n].effect != 'rebind' and
                  not n.endswith('#bad')]
+        if what == 'change' and hid in self.last_build and (kind + '.set') in ENTRIES and self.rng.random() < 0.3:
+            # re-set: set() with the values the object was last built from, one of them moved by less than any
+            # tolerance the library uses (a "nothing changed, skip the work" shortcut must not be taken)
+            src = self.last_build[hid]
+            core = self._perturb({'name': kind + '.set', 'recv': {'h': hid}, 'args': copy.deepcopy(src['args']),
+                                  'kwargs': copy.deepcopy(src['kwargs'])}, tiny=True)
+            sim.count('probe.scripted_object_life_reset_with_nearly_equal_values')
+            return self._finish(core, task, depth)
         if fixed == 'AUTO':
             fixed = self.life_same.get(hid)
             if fixed is None:
@@ -626,6 +639,14 @@ class GenSource(object):
         rng, cfg = self.rng, self.cfg
         op['id'] = self.next_id
         self.next_id += 1
+        nm = op['name']
+        if nm.split('.')[0] in LIFE_KINDS and '#' not in nm and '@' not in nm:
+            # how each scripted kind of object was last built (constructor or set()): the re-set step of a
+            # scripted life gives set() the same values again, one of them moved by less than any tolerance
+            if nm.endswith('.__init__'):
+                self.last_build[op['id'] * cfg['hstride']] = self._core(op)
+            elif nm.endswith('.set') and op.get('recv') and 'h' in op['recv']:
+                self.last_build[op['recv']['h']] = self._core(op)
         op['task'] = task
         op['clock'] = self._clock_script()
         pts = []
